@@ -94,10 +94,23 @@ type rwGrantOp struct {
 
 func (s *rwHist) addr(i int) sdk.AccAddress {
 	if i >= rwSubBase {
-		sub, _ := s.e.App.SubaccountKeeper.GetSubaccountByOwner(s.e.Ctx, s.e.Accts[i-rwSubBase])
+		sub, _ := s.e.App.SubaccountKeeper.GetSubaccountByOwner(s.e.Ctx, s.addr(i-rwSubBase))
 		return sub
 	}
+	if i == rwPool {
+		return s.poolA
+	}
 	return s.e.Accts[i]
+}
+
+// owners lists every address id that may own a subaccount in a history: the plain accounts and the reward pool
+// itself (a grant whose ticket names the pool address as receiver)
+func owners() []int {
+	var os []int
+	for i := 0; i < NAcct; i++ {
+		os = append(os, i)
+	}
+	return append(os, rwPool)
 }
 func (s *rwHist) addrStr(i int) string { return s.addr(i).String() }
 
@@ -438,9 +451,9 @@ func (s *rwHist) rewardState() {
 	// the by-category index is keyed by (promoter uid, receiver, category, reward uid); the promoter uid is only in the key
 	var xs [][4]int
 	for _, p := range ps {
-		for i := 0; i < NAcct; i++ {
+		for _, i := range owners() {
 			for cat := int32(0); cat <= 7; cat++ {
-				l, _ := k.GetRewardsOfReceiverByPromoterAndCategory(e.Ctx, p.UID, e.Accts[i].String(), rewardtypes.RewardCategory(cat))
+				l, _ := k.GetRewardsOfReceiverByPromoterAndCategory(e.Ctx, p.UID, s.addrStr(i), rewardtypes.RewardCategory(cat))
 				for _, x := range l {
 					xs = append(xs, [4]int{rwUIDNum(p.UID), s.aid(x.Addr), int(x.RewardCategory), rwUIDNum(x.UID)})
 				}
@@ -473,8 +486,8 @@ func (s *rwHist) rewardState() {
 		out.Impl("Y %d %d", rwUIDNum(y.CampaignUID), rwUIDNum(y.UID))
 	}
 	for _, cc := range cs {
-		for i := 0; i < NAcct; i++ {
-			if n, ok := k.GetRewardGrantsStats(e.Ctx, cc.c.UID, e.Accts[i].String()); ok {
+		for _, i := range owners() {
+			if n, ok := k.GetRewardGrantsStats(e.Ctx, cc.c.UID, s.addrStr(i)); ok {
 				out.Impl("S %d %d %d", cc.id, i, n)
 			}
 		}
@@ -482,8 +495,8 @@ func (s *rwHist) rewardState() {
 	for _, g := range s.grants() {
 		out.Impl("G %d %d %d %s %s", g.granter, g.grantee, g.kind, intStr(g.limit), g.exp)
 	}
-	for i := 0; i < NAcct; i++ {
-		sub, ok := e.App.SubaccountKeeper.GetSubaccountByOwner(e.Ctx, e.Accts[i])
+	for _, i := range owners() {
+		sub, ok := e.App.SubaccountKeeper.GetSubaccountByOwner(e.Ctx, s.addr(i))
 		if !ok {
 			continue
 		}
@@ -514,9 +527,9 @@ type rwSnap struct {
 
 func (s *rwHist) snap() rwSnap {
 	sn := rwSnap{pool: s.e.Bal(s.poolA), booked: s.booked(), bal: map[int]sdkmath.Int{}}
-	for i := 0; i < NAcct; i++ {
-		sn.bal[i] = s.e.Bal(s.e.Accts[i])
-		if sub, ok := s.e.App.SubaccountKeeper.GetSubaccountByOwner(s.e.Ctx, s.e.Accts[i]); ok {
+	for _, i := range owners() {
+		sn.bal[i] = s.e.Bal(s.addr(i))
+		if sub, ok := s.e.App.SubaccountKeeper.GetSubaccountByOwner(s.e.Ctx, s.addr(i)); ok {
 			sn.bal[rwSubBase+i] = s.e.Bal(sub)
 		} else {
 			sn.bal[rwSubBase+i] = sdkmath.ZeroInt()
@@ -880,7 +893,7 @@ func (s *rwHist) grantClaims(g *rwGrantOp) map[string]interface{} {
 	if g.kyc != "x" {
 		id := rcv
 		if g.kyc[2] == '0' {
-			id = s.addrStr((g.receiver + 1) % NAcct)
+			id = s.addrStr((g.receiver%rwSubBase + 1) % NAcct)
 		}
 		common["kyc_data"] = map[string]interface{}{"ignore": g.kyc[0] == '1', "approved": g.kyc[1] == '1', "id": id}
 	}
@@ -953,9 +966,6 @@ func (s *rwHist) opGrant(creator, uid int, g *rwGrantOp, replay bool) {
 		after := s.snap()
 		gotMain := after.bal[g.receiver].Sub(before.bal[g.receiver])
 		gotSub := after.bal[rwSubBase+g.receiver].Sub(before.bal[rwSubBase+g.receiver])
-		if g.receiver == s.aid(cBefore.Promoter) {
-			// the promoter may also be the receiver; no other flow touches its balance in a grant
-		}
 		if !gotMain.Equal(defMain) || !gotSub.Equal(defSub) {
 			s.fail("grant_amounts", class, fmt.Sprintf("campaign %d defines main %s sub %s, receiver %d got main %s sub %s", g.campaign, defMain, defSub, g.receiver, gotMain, gotSub))
 		}
@@ -1407,6 +1417,9 @@ func (s *rwHist) genGrant() (int, int, *rwGrantOp, bool) {
 	g.receiver = 5 + r.Intn(4)
 	if r.Chance(8) {
 		g.receiver = r.Intn(NAcct)
+	}
+	if r.Chance(2) {
+		g.receiver = rwPool // the ticket names the reward pool itself
 	}
 	if r.Chance(3) {
 		// the subaccount address of an account as receiver
